@@ -972,6 +972,7 @@ c_status_t MMUnflattenMessage(MMessage * msg, const void * inBuf, uint32 inputBu
             {
                MByteBuffer ** bufs;
                numItems = B_LENDIAN_TO_HOST_INT32(numItems);
+               if (numItems > ((eLength-sizeof(numItems))/sizeof(uint32))) return CB_ERROR;  /* every item takes up at least its own length-word, so this many items can't be present */
                bufs = PutMMVariableFieldAux(msg, MFalse, tc, fieldName, numItems);
                if (bufs)
                {
